@@ -92,7 +92,8 @@ class ProcessWorker(Worker):
         else:
             try:
                 self._ctrl_comms.parent_end.put('terminate')
-                self._ctrl_comms.parent_end.get()
+                if self._ctrl_comms.parent_end.poll(timeout): # an unresponsive child might never acknowledge
+                    self._ctrl_comms.parent_end.get()
             except (BrokenPipeError, queue.Empty):
                 pass
 
